@@ -150,6 +150,12 @@ def call(R, spec, size):
 FORMATS = ['export', 'brackets', 'discobrackets', 'tigerxml', 'terminals']
 
 
+def _xml_bytes(text):
+    """re-encode decoded XML text the way its declaration says"""
+    m = re.match(r"<\?xml[^>]*encoding=['\"]([^'\"]+)['\"]", text)
+    return text.encode(m.group(1) if m else 'utf-8')
+
+
 def decode_part(fmt, text):
     """-> list of comparable items (one per tree)"""
     if fmt == 'export':
@@ -163,7 +169,7 @@ def decode_part(fmt, text):
                 for s in codec.brackets_decode(text, disco=True)]
     if fmt == 'tigerxml':
         return [(s['sid'], model.canon(model.from_spec(s['root']), 'wplme'))
-                for s in codec.tigerxml_decode(text.encode('utf-8'))]
+                for s in codec.tigerxml_decode(_xml_bytes(text))]
     if fmt == 'terminals':
         return codec.terminals_decode(text)
     raise ValueError(fmt)
@@ -172,13 +178,15 @@ def decode_part(fmt, text):
 def cli_case(ctx, case):
     R = ctx.R
     bank, spec, fmt = case['bank'], case['spec'], case['fmt']
-    src = common.write(ctx.path('.export'), codec.export_encode(bank))
+    senc = case.get('senc', 'utf-8')
+    denc = case.get('denc', 'utf-8')
+    src = common.write(ctx.path('.export'), codec.export_encode(bank), senc)
     dest = ctx.path('.out')
-    extra = []
+    extra = ['--src-enc', senc, '--dest-enc', denc]
     if case.get('filter'):
         op, val = case['filter']
-        extra = ['--trans', 'filter_by_length', '--params',
-                 'filteroperator:%s' % op, 'filtervalue:%d' % val]
+        extra += ['--trans', 'filter_by_length', '--params',
+                  'filteroperator:%s' % op, 'filtervalue:%d' % val]
         keep = [s for s in bank
                 if not {'lt': len(gen.tokens_of(s['root'])) < val,
                         'gt': len(gen.tokens_of(s['root'])) > val,
@@ -218,7 +226,12 @@ def cli_case(ctx, case):
         if not os.path.exists(p):
             ctx.fail('C17:part-file-missing', case, 'no file for part %d' % i)
             return
-        parts.append(common.read(p))
+        try:
+            parts.append(common.read(p, denc))
+        except UnicodeError as e:
+            ctx.fail('C17:part-not-in-destination-encoding', case,
+                     'part %d cannot be read as %s: %r' % (i, denc, e))
+            return
     if os.path.exists('%s.%d' % (dest, len(exp))):
         ctx.fail('C17:extra-part-file', case, 'more files than parts')
         return
@@ -241,7 +254,7 @@ def cli_case(ctx, case):
             return
         decoded.append(items)
     try:
-        whole = decode_part(fmt, common.read(dest2))
+        whole = decode_part(fmt, common.read(dest2, denc))
     except Exception as e:
         ctx.fail('C17:unsplit-output-does-not-decode', case, repr(e))
         return
@@ -265,7 +278,7 @@ def cli_case(ctx, case):
             p = '%s.%d' % (dest, i)
             try:
                 with common.captured():
-                    got = list(getattr(R.treeinput, fmt)(p, 'utf-8',
+                    got = list(getattr(R.treeinput, fmt)(p, denc,
                                                           quiet=True))
                 ctx.hook('own reader on part')
             except Exception as e:
@@ -283,6 +296,8 @@ def cli_case(ctx, case):
     ctx.stratum('cli ' + fmt)
     if case.get('filter'):
         ctx.stratum('cli with filter_by_length')
+    if senc != denc:
+        ctx.stratum('cli source and destination encodings differ')
     if 0 in exp:
         ctx.stratum('cli with an empty part')
 
@@ -290,7 +305,12 @@ def cli_case(ctx, case):
 def make_cli_case(rng):
     fmt = rng.choice(FORMATS)
     k = rng.randint(1, 14)
-    pools = gen.Pools(lemma=False)
+    senc, denc = rng.choice([('utf-8', 'utf-8'), ('utf-8', 'utf-8'),
+                             ('latin-1', 'utf-8'), ('utf-8', 'latin-1'),
+                             ('latin-1', 'latin-1')])
+    pools = gen.Pools(lemma=False, words=gen.WORDS_ASCII + (
+        gen.WORDS_NONASCII if (senc, denc) != ('utf-8', 'utf-8')
+        or rng.random() < 0.3 else []))
     bank = [gen.tree(rng, rng.randint(1, 7), pools,
                      moves=0 if fmt == 'brackets' else rng.choice([0, 1, 2]),
                      sid=i + 1) for i in range(k)]
@@ -308,7 +328,8 @@ def make_cli_case(rng):
         vals = [v if v != 'rest' else '10%' for v in vals[:-1]] + ['rest']
     if rng.random() < 0.05:
         vals.append(rng.choice(['-1#', 'x', '200%']))
-    case = {'kind': 'cli', 'bank': bank, 'spec': '_'.join(vals), 'fmt': fmt}
+    case = {'kind': 'cli', 'bank': bank, 'spec': '_'.join(vals), 'fmt': fmt,
+            'senc': senc, 'denc': denc}
     if rng.random() < 0.3:
         case['filter'] = [rng.choice(['lt', 'gt', 'eq']), rng.randint(1, 6)]
     return case
